@@ -87,7 +87,13 @@ def run(ctx, chk, tier):
                                                       all(k in passed.attrs and isinstance(passed.attrs[k], V_) and passed.attrs[k] == v for k, v in cfg_holder["cfg"].attrs.items()))
             ok_virtual = s["callee"] == cls + BS
             buf = v.args[0]
-            ok_buf = True
+            while isinstance(buf, App) and buf.fn in ("carried", "store"):
+                buf = buf.args[0]
+            from .. import libmodel as _lm
+            bsh = _lm.shape_of(buf)
+            ok_buf = bsh is not None and len(bsh.items) >= 1 and bsh.items[0] == nb and all(isinstance(i, Star) for i in bsh.items[1:]) and len(bsh.items) == 2
+            if not ok_buf:
+                chk.violation("R14.1", q, inst + ":buffer-shape", show(bsh, 120) if bsh is not None else show(buf, 120), "(config.nb_samples, *metric_shape)", ctx.where(q))
             if ok_iter and ok_val and ok_cfg and ok_virtual:
                 chk.hold("R14.1", inst, "row j = metric(sample_j, **kwargs), sample_j = %s(config=config) drawn in iteration j of range(nb_samples)" % s["callee"].split(".")[-2])
             else:
